@@ -8,7 +8,7 @@
     Models: model/SigHash.v (CalcInputPreimage, CalcInputPreimageLegacy, CalcInputSignatureHash),
     model/TxMutate.v (the mutations on a go-bt transaction object), model/Interp.v + model/CheckSig.v
     (interpreter with the signature opcodes over an ECDSA oracle).
-    Proofs: proofs/CommitProofs.v, proofs/CommitModelProofs.v, proofs/P2PKHProofs.v.
+    Proofs: proofs/CommitProofs.v, proofs/CommitModelProofs.v, proofs/P2PKHProofs.v, proofs/SignedCoverageProofs.v.
 
     The property has three parts:
     (a) a library-signed P2PKH / P2PKH-inscription input is accepted   — [C04_signed_p2pkh_accepts],
@@ -24,10 +24,90 @@
         mutation at every position, real interpreter, real go-bk ECDSA). *)
 From Coq Require Import List NArith ZArith Bool.
 From Coq Require Import Strings.Byte.
-From GoBT Require Import lib.Bytes lib.VarInt lib.Sha256 model.Tx spec.DigestSpec spec.CommitSpec model.SigHash
-  model.SigHashWire model.TxMutate proofs.SigHashProofs proofs.CommitProofs proofs.CommitModelProofs.
+From GoBT Require Import lib.Bytes lib.VarInt lib.Sha256 lib.Ripemd160 model.Tx spec.DigestSpec spec.CommitSpec model.SigHash
+  model.SigHashWire model.TxMutate model.ScriptNum model.Interp model.CheckSig proofs.SigHashProofs proofs.CommitProofs
+  proofs.CommitModelProofs proofs.P2PKHProofs proofs.SignedCoverageProofs.
 Import ListNotations.
 Local Open Scope N_scope. Local Open Scope bool_scope.
+
+(** * (a) a library-signed P2PKH / P2PKH-inscription input is accepted
+
+    For EVERY ECDSA oracle (go-bk is not modelled), every transaction, input position, hash type, flag word,
+    33-byte key and signature: executing the interpreter model on
+      unlock = push(sig ++ [hash type]) push(pubkey)            (bscript.NewP2PKHUnlockingScript)
+      lock   = DUP HASH160 push(hash160 pubkey) EQUALVERIFY CHECKSIG  [OP_FALSE OP_IF body OP_ENDIF]
+    returns VOk, given: the three encoding checks of opcodeCheckSig pass (computable; the correspondence
+    evaluates them on every signed input), the envelope body is push-only, and THE oracle hypothesis:
+    key and signature parse and the signature verifies over the digest the engine computes.
+    hash160 is opaque in the proof. *)
+Theorem C04_signed_p2pkh_accepts : forall (orc : sig_oracle) (t : tx) (idx : N) (inp : input) (flags sats ht : N)
+    (sig pk body : bytes) (insc : bool) (bops : list pop) (h : bytes),
+  let full := sig ++ [n2b ht] in
+  let unlock := p2pkh_unlock sig ht pk in
+  let lock := p2pkh_lock (hash160 pk) ++ (if insc then inscription_suffix body else []) in
+  let tE := engine_tx t idx unlock lock sats in
+  let c := mkCtx (normalise_flags flags) true (Z.of_N (tx_lock t)) (Z.of_N (tx_version t)) (Z.of_N (in_seq inp)) false in
+  ht < 256 -> length pk = 33%nat -> (length full <= 75)%nat ->
+  (has_flag c F_MINIMALDATA = true -> sig <> []) ->
+  (has_flag c F_CLEANSTACK = true -> has_flag c F_BIP16 = true) ->
+  (lenZ lock <= max_script_size c)%Z ->
+  (insc = true -> parse_ops (length body) false body 1 = Some bops /\ is_push_only bops = true /\
+                  Forall (fun p => (lenZ (p_data p) <= max_elem c)%Z) bops) ->
+  check_hash_type c ht = true -> check_sig_enc c sig = EncOk -> check_pubkey_enc c pk = true ->
+  (has_flag c F_FORKID && flag_has ht sh_forkid = true \/
+   forall l, parse_script false lock = Some l -> remove_by_data l full = l) ->
+  sighash_for tE idx lock ht = SOk h ->
+  orc_parse_pub orc pk = true -> orc_parse_sig orc (uses_der_parser c) sig = true ->
+  orc_verify orc pk h sig (uses_der_parser c) = Some true ->
+  fst (engine_execute (mk_sigops orc tE idx)
+         (mkExecInput unlock lock flags true true (Z.of_N (tx_lock t)) (Z.of_N (tx_version t)) (Z.of_N (in_seq inp)))) = VOk.
+Proof. exact signed_p2pkh_accepts. Qed.
+Print Assumptions C04_signed_p2pkh_accepts.
+
+(** the digest opcodeCheckSig recomputes (clone, install the script code, CalcInputSignatureHash) is the digest
+    unlocker.Simple signed (CalcInputSignatureHash on the transaction being filled in, whatever unlocking
+    scripts are already present) *)
+Theorem C04_engine_digest_is_signed_digest : forall (t : tx) (idx : N) (inp : input) (u lock : bytes) (sats ht : N),
+  wf_tx t -> nthN (tx_ins t) idx = Some inp -> in_script inp = Some lock -> in_sats inp = sats ->
+  wf_script u -> ht < 256 -> idx + 1 < two32 ->
+  sighash_for (engine_tx t idx u lock sats) idx lock ht = fst (calc_input_signature_hash t idx ht).
+Proof. exact engine_digest_is_signed_digest. Qed.
+Print Assumptions C04_engine_digest_is_signed_digest.
+
+(** both: "the signature verifies over the digest the unlocker computed" is enough *)
+Theorem C04_signed_p2pkh_accepts_unlocker_digest : forall (orc : sig_oracle) (t : tx) (idx : N) (inp : input)
+    (flags sats ht : N) (sig pk body : bytes) (insc : bool) (bops : list pop) (h : bytes),
+  let full := sig ++ [n2b ht] in
+  let unlock := p2pkh_unlock sig ht pk in
+  let lock := p2pkh_lock (hash160 pk) ++ (if insc then inscription_suffix body else []) in
+  let tE := engine_tx t idx unlock lock sats in
+  let c := mkCtx (normalise_flags flags) true (Z.of_N (tx_lock t)) (Z.of_N (tx_version t)) (Z.of_N (in_seq inp)) false in
+  wf_tx t -> nthN (tx_ins t) idx = Some inp -> in_script inp = Some lock -> in_sats inp = sats ->
+  idx + 1 < two32 ->
+  ht < 256 -> length pk = 33%nat -> (length full <= 75)%nat ->
+  (has_flag c F_MINIMALDATA = true -> sig <> []) ->
+  (has_flag c F_CLEANSTACK = true -> has_flag c F_BIP16 = true) ->
+  (lenZ lock <= max_script_size c)%Z ->
+  (insc = true -> parse_ops (length body) false body 1 = Some bops /\ is_push_only bops = true /\
+                  Forall (fun p => (lenZ (p_data p) <= max_elem c)%Z) bops) ->
+  check_hash_type c ht = true -> check_sig_enc c sig = EncOk -> check_pubkey_enc c pk = true ->
+  (has_flag c F_FORKID && flag_has ht sh_forkid = true \/
+   forall l, parse_script false lock = Some l -> remove_by_data l full = l) ->
+  fst (calc_input_signature_hash t idx ht) = SOk h ->
+  orc_parse_pub orc pk = true -> orc_parse_sig orc (uses_der_parser c) sig = true ->
+  orc_verify orc pk h sig (uses_der_parser c) = Some true ->
+  fst (engine_execute (mk_sigops orc tE idx)
+         (mkExecInput unlock lock flags true true (Z.of_N (tx_lock t)) (Z.of_N (tx_version t)) (Z.of_N (in_seq inp)))) = VOk.
+Proof. exact signed_p2pkh_accepts_unlocker_digest. Qed.
+Print Assumptions C04_signed_p2pkh_accepts_unlocker_digest.
+
+(** non-vacuity of (a): the hypotheses hold on concrete instances ([p2pkh_hyps] is literally the hypothesis list,
+    see [signed_p2pkh_accepts_packed]) — FORKID|GENESIS with ALL|FORKID and no flags with legacy ALL, with and
+    without the inscription envelope — and direct evaluation of the model gives VOk there *)
+Example C04_p2pkh_hypotheses_satisfiable :
+  p2pkh_hyps ex_orc (P2PKHProofs.ex_tx true) 0 (ex_inp true) FLAGS_FORKID_GENESIS 1000 65 ex_sig ex_pk ex_body true ex_bops (ex_digest true 65) /\
+  p2pkh_hyps ex_orc (P2PKHProofs.ex_tx false) 0 (ex_inp false) 0 1000 1 ex_sig ex_pk [] false [] (ex_digest false 1).
+Proof. split; [exact ex_forkid_genesis_inscription | exact ex_legacy_plain]. Qed.
 
 (** * the table on the twelve standard types: which rule set each one selects *)
 Theorem C04_standard_types :
@@ -135,6 +215,38 @@ Theorem C04_commit_invariant_sighash : forall t i ht m, ht < 256 ->
   fst (calc_input_signature_hash t' (N.of_nat i') ht) = fst (calc_input_signature_hash t (N.of_nat i) ht).
 Proof. exact model_commit_invariant_sighash. Qed.
 Print Assumptions C04_commit_invariant_sighash.
+
+(** (a) + (b) at the interpreter: after a mutation of an uncommitted field the interpreter model still
+    accepts the signed input, the signature having been made over the digest of the ORIGINAL transaction.
+    ([m] is not a spent-script mutation: that one changes the program being run; it is committed under every
+    type except in the legacy SINGLE-bug regime.) *)
+Theorem C04_uncommitted_mutation_still_accepted : forall (orc : sig_oracle) (t : tx) (i : nat) (m : mutation) (inp' : input)
+    (flags ht : N) (sig pk body : bytes) (insc : bool) (bops : list pop) (h : bytes),
+  let full := sig ++ [n2b ht] in
+  let unlock := p2pkh_unlock sig ht pk in
+  let lock := p2pkh_lock (hash160 pk) ++ (if insc then inscription_suffix body else []) in
+  let t' := fst (apply_tx m t i) in let i' := snd (apply_tx m t i) in
+  let c := mkCtx (normalise_flags flags) true (Z.of_N (tx_lock t')) (Z.of_N (tx_version t')) (Z.of_N (in_seq inp')) false in
+  signable t i -> signable t' i' -> nth_error (tx_ins t') i' = Some inp' ->
+  (exists inp, nth_error (tx_ins t) i = Some inp /\ in_script inp = Some lock) ->
+  (forall s, m <> MSpentScript s) -> applicable m (sign_ctx_of t i) ->
+  committed_in (if has_forkid ht then AlgForkid else AlgLegacy) ht (sign_ctx_of t i) m = false ->
+  ht < 256 -> length pk = 33%nat -> (length full <= 75)%nat ->
+  (has_flag c F_MINIMALDATA = true -> sig <> []) ->
+  (has_flag c F_CLEANSTACK = true -> has_flag c F_BIP16 = true) ->
+  (lenZ lock <= max_script_size c)%Z ->
+  (insc = true -> parse_ops (length body) false body 1 = Some bops /\ is_push_only bops = true /\
+                  Forall (fun p => (lenZ (p_data p) <= max_elem c)%Z) bops) ->
+  check_hash_type c ht = true -> check_sig_enc c sig = EncOk -> check_pubkey_enc c pk = true ->
+  (has_flag c F_FORKID && flag_has ht sh_forkid = true \/
+   forall l, parse_script false lock = Some l -> remove_by_data l full = l) ->
+  fst (calc_input_signature_hash t (N.of_nat i) ht) = SOk h ->
+  orc_parse_pub orc pk = true -> orc_parse_sig orc (uses_der_parser c) sig = true ->
+  orc_verify orc pk h sig (uses_der_parser c) = Some true ->
+  fst (engine_execute (mk_sigops orc (engine_tx t' (N.of_nat i') unlock lock (in_sats inp')) (N.of_nat i'))
+         (mkExecInput unlock lock flags true true (Z.of_N (tx_lock t')) (Z.of_N (tx_version t')) (Z.of_N (in_seq inp')))) = VOk.
+Proof. exact uncommitted_mutation_still_accepted. Qed.
+Print Assumptions C04_uncommitted_mutation_still_accepted.
 
 (** FULL statement of (c), not proved:
       committed ... = true -> effective m ... -> the interpreter rejects input i' of t' with the
